@@ -516,6 +516,15 @@ func (p *Program) Explore(fn *ssa.Function, opts Opts) ([]*Path, error) {
 			}
 		}
 	}
+	// a closure explored on its own: a captured variable that holds a plumbed parameter of the enclosing function (a hard-coded
+	// value that became a parameter with one constant at every call site) holds that constant
+	if par := fn.Parent(); par != nil {
+		for _, fv := range fn.FreeVars {
+			if v := p.capturedPlumbedConst(par, fn, fv); v != nil {
+				st.mem["FV:"+paramName(fv)] = v
+			}
+		}
+	}
 	fr.visited[fr.block] = 1
 	st.frames = []*frame{fr}
 	it.run(st)
@@ -523,6 +532,58 @@ func (p *Program) Explore(fn *ssa.Function, opts Opts) ([]*Path, error) {
 		return it.paths, fmt.Errorf("path limit %d exceeded in %s", opts.MaxPaths, p.rawName(fn))
 	}
 	return it.paths, nil
+}
+
+// capturedPlumbedConst: fv of closure cl (made in par) is the spilled copy of a parameter of par that plumbedParam resolves
+// to a constant, and nothing else is ever stored into that copy.
+func (p *Program) capturedPlumbedConst(par, cl *ssa.Function, fv *ssa.FreeVar) AV {
+	idx := -1
+	for i, f := range cl.FreeVars {
+		if f == fv {
+			idx = i
+		}
+	}
+	if idx < 0 {
+		return nil
+	}
+	var cell *ssa.Alloc
+	for _, b := range par.Blocks {
+		for _, in := range b.Instrs {
+			if mc, ok := in.(*ssa.MakeClosure); ok && mc.Fn == cl && idx < len(mc.Bindings) {
+				if a, ok := mc.Bindings[idx].(*ssa.Alloc); ok {
+					cell = a
+				}
+			}
+		}
+	}
+	if cell == nil {
+		return nil
+	}
+	var src *ssa.Parameter
+	for _, ref := range *cell.Referrers() {
+		st, ok := ref.(*ssa.Store)
+		if !ok || st.Addr != cell {
+			continue
+		}
+		prm, isP := st.Val.(*ssa.Parameter)
+		if !isP || src != nil {
+			return nil
+		}
+		src = prm
+	}
+	if src == nil {
+		return nil
+	}
+	for i, q := range par.Params {
+		if q == src {
+			if v := p.plumbedParam(par, i); v != nil {
+				if _, isC := v.(*Const); isC {
+					return v
+				}
+			}
+		}
+	}
+	return nil
 }
 
 // plumbedParam: signature plumbing. A parameter that a reference function did not have in the reference tree and to which
